@@ -163,13 +163,10 @@ def check(ctx):
             n_norm += 1
             cd = control_dependence_no_errors(b)
             seen_pats = set()
-            for a, s, k in transitive_control_deps(b, c.bb, cd=cd):
+            from .common import guards_on_all_paths
+            for a, k, truth in guards_on_all_paths(b, c.bb):
                 if k and k[0] == "call" and (k[1].path or "").endswith("str::contains") and len(k[1].args) > 1:
                     pt = operand_term(b, k[1].args[1])
-                    vals = [v for v, t in b.switch_edges(a) if t == s]
-                    truth = any(v != 0 for v in vals)
-                    if k[2]:
-                        truth = not truth
                     if pt[0] == "const" and not truth:
                         seen_pats.add(pt[2])
             ok = {"//", "/*"} <= seen_pats
